@@ -19,6 +19,9 @@ pub const PROP: &str = "C18";
 /// instruction budget of one operation run alone (operations heavier than 20k instructions are
 /// dropped from scenarios anyway; this only stops an operation that spins)
 const SOLO_INSN_BUDGET: u64 = 50_000_000;
+/// the same for the operations of a volume scenario, and the scheduler-decision budget of such a run
+const HEAVY_INSN_BUDGET: u64 = 400_000_000;
+const HEAVY_DECISION_BUDGET: u64 = 600_000_000;
 
 /// Compile-time part of the property. If `/repo` still builds but this module does not, the
 /// `check` script reports the build failure as the violation (it greps for this module's name).
@@ -138,6 +141,9 @@ pub struct Scenario {
     pub sharing: Sharing,
     /// number of mailboxes (0 = no life-cycle operations in this scenario)
     pub mailboxes: usize,
+    /// volume scenario (long texts, searches holding hundreds of thousands of alternatives):
+    /// larger step budgets, cheaper minimisation
+    pub heavy: bool,
 }
 
 // ------------------------------------------------------------------------------------------------
@@ -447,7 +453,7 @@ pub fn solo_results(sc: &Scenario) -> Option<Vec<Vec<String>>> {
                 let second = sc.regexes[op.re].build()?;
                 REFERENCE_FRESH.with(|r| *r.borrow_mut() = Some(second));
             }
-            budget::arm(SOLO_INSN_BUDGET, 100_000);
+            budget::arm(if sc.heavy { HEAVY_INSN_BUDGET } else { SOLO_INSN_BUDGET }, 100_000);
             v.push(exec_op(&re, &sc.texts[op.text], op));
             budget::disarm();
             REFERENCE_FRESH.with(|r| *r.borrow_mut() = None);
@@ -472,7 +478,7 @@ pub fn run_concurrent(sc: &Scenario, seed: u64, policy: Policy) -> Option<RunRes
     let shared: Vec<Arc<Regex>> = sc.regexes.iter().map(|r| r.build().map(Arc::new)).collect::<Option<Vec<_>>>()?;
     let texts = Arc::new(sc.texts.clone());
     let mail = Arc::new(Mail { slots: (0..sc.mailboxes).map(|_| Mutex::new(None)).collect(), specs: sc.regexes.clone() });
-    let sched = Sched::new(n, seed, policy, 5_000_000);
+    let sched = Sched::new(n, seed, policy, if sc.heavy { HEAVY_DECISION_BUDGET } else { 5_000_000 });
     let results: Arc<Mutex<Vec<Vec<String>>>> = Arc::new(Mutex::new(vec![Vec::new(); n]));
     let mut handles = Vec::new();
     for t in 0..n {
@@ -544,6 +550,16 @@ pub fn run_concurrent(sc: &Scenario, seed: u64, policy: Policy) -> Option<RunRes
     Some(RunResult { results, handoffs, stats, deadlock, budget_exhausted })
 }
 
+/// texts of volume scenarios are hundreds of kilobytes: messages show both ends and the length
+fn abbreviate(text: &str) -> String {
+    if text.len() <= 200 {
+        return text.to_string();
+    }
+    let head: String = text.chars().take(40).collect();
+    let tail: String = text.chars().rev().take(20).collect::<Vec<_>>().into_iter().rev().collect();
+    format!("{}...[{} bytes]...{}", head, text.len(), tail)
+}
+
 /// Compare a concurrent run with the solo results.
 pub fn judge(sc: &Scenario, solo: &[Vec<String>], r: &RunResult) -> Option<(String, String)> {
     if r.deadlock {
@@ -604,7 +620,7 @@ pub fn judge(sc: &Scenario, solo: &[Vec<String>], r: &RunResult) -> Option<(Stri
                     class.into(),
                     format!(
                         "thread {} op #{} {:?} on /{}/ text {:?}: concurrent run returned {} ; alone on a fresh Regex it returns {}",
-                        t, k, op.kind, sc.regexes[op.re].pattern, sc.texts[op.text], r.results[t][k], solo[t][k]
+                        t, k, op.kind, sc.regexes[op.re].pattern, abbreviate(&sc.texts[op.text]), r.results[t][k], solo[t][k]
                     ),
                 ));
             }
@@ -729,7 +745,7 @@ fn gen_scenario(rng: &mut Rng, max_threads: usize) -> Option<Scenario> {
         }
         threads.push(ops);
     }
-    Some(Scenario { regexes, texts, threads, sharing, mailboxes })
+    Some(Scenario { regexes, texts, threads, sharing, mailboxes, heavy: false })
 }
 
 /// Add limit faults to some operations, placed where they can fire (thresholds read from a solo
@@ -865,6 +881,7 @@ fn scenario_to_json(sc: &Scenario, handoffs: &[(u64, usize)], seed: u64) -> Valu
         "texts": sc.texts,
         "sharing": format!("{:?}", sc.sharing),
         "mailboxes": sc.mailboxes,
+        "heavy": sc.heavy,
         "threads": sc.threads.iter().map(|ops| ops.iter().map(op_to_json).collect::<Vec<_>>()).collect::<Vec<_>>(),
         "schedule": handoffs.iter().map(|(d, t)| json!([d, t])).collect::<Vec<_>>(),
     })
@@ -893,7 +910,8 @@ fn scenario_from_json(v: &Value) -> Option<(Scenario, Vec<(u64, usize)>, u64)> {
         .map(|h| Some((h[0].as_u64()?, h[1].as_u64()? as usize)))
         .collect::<Option<Vec<_>>>()?;
     let mailboxes = v["mailboxes"].as_u64().unwrap_or(0) as usize;
-    Some((Scenario { regexes, texts, threads, sharing, mailboxes }, schedule, v["sched_seed"].as_u64().unwrap_or(0)))
+    let heavy = v["heavy"].as_bool().unwrap_or(false);
+    Some((Scenario { regexes, texts, threads, sharing, mailboxes, heavy }, schedule, v["sched_seed"].as_u64().unwrap_or(0)))
 }
 
 fn run_forced(sc: &Scenario, handoffs: &[(u64, usize)]) -> Option<(String, String)> {
@@ -916,7 +934,26 @@ fn minimise(sc: &Scenario, handoffs: &[(u64, usize)], class: &str) -> (Scenario,
     let mut cur_sc = sc.clone();
     let mut cur_h = handoffs.to_vec();
     let same = |s: &Scenario, h: &[(u64, usize)]| run_forced(s, h).map_or(false, |(c, _)| c == class);
-    let mut budget = 120;
+    let mut budget = if sc.heavy { 16 } else { 120 };
+    if sc.heavy {
+        // thousands of hand-offs over millions of decisions: first try whole halves of the schedule
+        let mut step = cur_h.len() / 2;
+        while step >= 64 && budget > 0 {
+            let mut i = 1;
+            while i + step <= cur_h.len() && budget > 0 {
+                let mut h = cur_h.clone();
+                h.drain(i..i + step);
+                budget -= 1;
+                if same(&cur_sc, &h) {
+                    cur_h = h;
+                } else {
+                    i += step;
+                }
+            }
+            step /= 2;
+        }
+        return (cur_sc, cur_h);
+    }
     // drop hand-offs
     let mut i = cur_h.len();
     while i > 1 && budget > 0 {
@@ -1071,6 +1108,180 @@ fn job(seed: u64, i: u64, max_threads: usize, runs_per_job: usize) -> (JobOut, O
     (out, None)
 }
 
+
+// ------------------------------------------------------------------------------------------------
+// volume slice: a few threads whose searches each hold hundreds of thousands of pending
+// alternatives at the same time. Everything per search is still far inside the default limits
+// (1,000,000 alternatives, 1,000,000 backtracks), so alone every call succeeds; together the
+// searches of one run hold more than any single search may. Whatever the library accounts for
+// per process instead of per search (stack budgets, pooled buffers, statistics) shows here and
+// nowhere in the small workloads.
+
+/// (pattern, pending alternatives per text character, text shape)
+const HEAVY_PATTERNS: &[(&str, usize, u8)] = &[
+    (r"(a|b)+\1", 2, 0),
+    (r"(?:a(?=a|(b)))+b", 1, 1),
+    (r"(?:a|b)*(?<=(a))b", 2, 2),
+    (r"(?:a|ab)+(?!c)b", 2, 1),
+    (r"(?<x>a|b)+(?=\k<x>)", 2, 0),
+];
+
+fn heavy_text(rng: &mut Rng, chars: usize, shape: u8) -> String {
+    let mut t = String::with_capacity(chars + 4);
+    match shape {
+        1 => {
+            for _ in 0..chars {
+                t.push('a');
+            }
+            t.push('b');
+        }
+        _ => {
+            // random a/b in runs (one PRNG draw per 60 characters keeps generation cheap)
+            let mut left = chars;
+            while left > 0 {
+                let mut bits = rng.next_u64();
+                for _ in 0..60.min(left) {
+                    t.push(if bits & 1 == 0 { 'a' } else { 'b' });
+                    bits >>= 1;
+                }
+                left -= 60.min(left);
+            }
+            t.push_str(if shape == 0 { "aa" } else { "ab" });
+        }
+    }
+    t
+}
+
+fn gen_heavy_scenario(rng: &mut Rng) -> Option<Scenario> {
+    let (pattern, per_char, shape) = *rng.pick(HEAVY_PATTERNS);
+    let spec = RegexSpec { pattern: pattern.to_string(), builder_limit: None };
+    spec.build()?;
+    let n_threads = rng.range(3, 6);
+    // one text per run: every search alone peaks at the same 450k..850k alternatives, and in lock
+    // step all threads are there at the same moment; three or more together exceed what a single
+    // search may hold
+    let chars = rng.range(450_000, 850_000) / per_char;
+    let texts: Vec<String> = vec![heavy_text(rng, chars, shape)];
+    let sharing = *rng.pick(&[Sharing::Shared, Sharing::Shared, Sharing::Clones, Sharing::Mixed]);
+    let mut threads = Vec::new();
+    for _ in 0..n_threads {
+        let mut ops = Vec::new();
+        for _ in 0..rng.range(1, 2) {
+            let text = rng.below(texts.len());
+            let kind = match rng.below(4) {
+                0 => OpKind::IsMatch,
+                1 => OpKind::Find,
+                2 => OpKind::FindFromPos(rng.below(8)),
+                _ => OpKind::Captures(0),
+            };
+            ops.push(Op { kind, re: 0, text, fault: None });
+        }
+        threads.push(ops);
+    }
+    Some(Scenario { regexes: vec![spec], texts, threads, sharing, mailboxes: 0, heavy: true })
+}
+
+#[derive(Default, Clone)]
+struct HeavyOut {
+    runs: u64,
+    ops: u64,
+    decisions: u64,
+    handoffs: u64,
+    insns: u64,
+    min_solo_peak: usize,
+    max_solo_peak: usize,
+    max_sum_of_solo_peaks: usize,
+    runs_whose_solo_peaks_sum_over_1m: u64,
+    skipped: u64,
+    digest: u64,
+}
+
+fn heavy_job(seed: u64, i: u64) -> (HeavyOut, Option<Violation>) {
+    let mut out = HeavyOut { min_solo_peak: usize::MAX, ..HeavyOut::default() };
+    let mut rng = Rng::new(derive(seed ^ 0x4845_4156_59, i));
+    let Some(sc) = gen_heavy_scenario(&mut rng) else {
+        out.skipped += 1;
+        return (out, None);
+    };
+    // the solo pass doubles as the measurement of what every search needs alone
+    verif::record_run_stats(true);
+    let solo = solo_results(&sc);
+    let stats = verif::take_run_stats();
+    verif::record_run_stats(false);
+    let Some(solo) = solo else {
+        out.skipped += 1;
+        return (out, None);
+    };
+    let n_ops: usize = sc.threads.iter().map(|t| t.len()).sum();
+    if stats.len() != n_ops || solo.iter().flatten().any(|r| r.contains("frsim-budget")) {
+        out.skipped += 1;
+        return (out, None);
+    }
+    let insns: u64 = stats.iter().map(|r| r.insns + r.backtracks).sum();
+    // peak per thread = its deepest operation; the threads run side by side
+    let mut k = 0;
+    let mut sum_peaks = 0usize;
+    for t in &sc.threads {
+        let mut peak = 0usize;
+        for _ in t {
+            peak = peak.max(stats[k].peak_depth);
+            out.min_solo_peak = out.min_solo_peak.min(stats[k].peak_depth);
+            out.max_solo_peak = out.max_solo_peak.max(stats[k].peak_depth);
+            k += 1;
+        }
+        sum_peaks += peak;
+    }
+    out.max_sum_of_solo_peaks = sum_peaks;
+    if sum_peaks > 1_000_000 {
+        out.runs_whose_solo_peaks_sum_over_1m += 1;
+    }
+    // frequent hand-offs keep the threads in lock step, so all of them are near their peak at the
+    // same time
+    let policy = Policy::Uniform { q: rng.range(200, 4000) };
+    let sched_seed = rng.next_u64();
+    let Some(r) = run_concurrent(&sc, sched_seed, policy) else {
+        out.skipped += 1;
+        return (out, None);
+    };
+    out.runs = 1;
+    out.ops = n_ops as u64;
+    out.decisions = r.stats.decisions;
+    out.handoffs = r.stats.handoffs;
+    out.insns = insns;
+    let mut d = Fnv(sched::schedule_hash(&r.handoffs));
+    for t in &r.results {
+        for s in t {
+            d.str(s);
+        }
+    }
+    out.digest = d.0;
+    if let Some((class, detail)) = judge(&sc, &solo, &r) {
+        let detail = format!(
+            "{} [volume scenario: {} threads, text of {} bytes; alone the searches peak at {}..{} pending alternatives, {} together]",
+            detail.chars().take(400).collect::<String>(),
+            sc.threads.len(),
+            sc.texts[0].len(),
+            out.min_solo_peak,
+            out.max_solo_peak,
+            sum_peaks
+        );
+        return (out, Some(Violation::new(PROP, &class, detail, scenario_to_json(&sc, &r.handoffs, sched_seed))));
+    }
+    (out, None)
+}
+
+pub fn heavy_digest(seed: u64, n: u64, workers: usize) -> Vec<u64> {
+    let (res, _) = run_batch(n, workers, move |i| {
+        let (o, v) = heavy_job(seed, i);
+        let mut d = Fnv(o.digest);
+        d.u64(o.decisions);
+        d.u64(o.handoffs);
+        d.u64(v.is_some() as u64);
+        (d.0, None)
+    });
+    res.into_iter().map(|(_, d)| d).collect()
+}
+
 pub fn digest(seed: u64, n: u64, workers: usize) -> Vec<u64> {
     let (res, _) = run_batch(n, workers, move |i| {
         let (o, v) = job(seed, i, 6, 2);
@@ -1123,6 +1334,31 @@ pub fn run(opts: &Opts) -> i32 {
             }
         }
     });
+    // volume slice (only when the main batch was clean: one violation per run is reported)
+    let n_heavy: u64 = if opts.budget > 0 { (opts.budget / 200).max(4) } else if thorough { 160 } else { 12 };
+    let mut hagg = HeavyOut { min_solo_peak: usize::MAX, ..HeavyOut::default() };
+    let mut viol = viol;
+    let mut heavy_wall = 0.0;
+    if viol.is_none() {
+        let th = now();
+        let (hres, hv) = run_batch(n_heavy, opts.workers.min(4), move |i| heavy_job(seed, i));
+        for (_, r) in &hres {
+            hagg.runs += r.runs;
+            hagg.ops += r.ops;
+            hagg.decisions += r.decisions;
+            hagg.handoffs += r.handoffs;
+            hagg.insns += r.insns;
+            hagg.skipped += r.skipped;
+            hagg.min_solo_peak = hagg.min_solo_peak.min(r.min_solo_peak);
+            hagg.max_solo_peak = hagg.max_solo_peak.max(r.max_solo_peak);
+            hagg.max_sum_of_solo_peaks = hagg.max_sum_of_solo_peaks.max(r.max_sum_of_solo_peaks);
+            hagg.runs_whose_solo_peaks_sum_over_1m += r.runs_whose_solo_peaks_sum_over_1m;
+        }
+        heavy_wall = th.elapsed().as_secs_f64();
+        if let Some((i, v)) = hv {
+            viol = Some((1_000_000_000 + i, v));
+        }
+    }
     let wall = t0.elapsed().as_secs_f64();
     let mut code = 0;
     let mut violations = 0;
@@ -1191,8 +1427,21 @@ pub fn run(opts: &Opts) -> i32 {
             "runs_in_free_running_mode_foreign_blocking": agg.free_runs,
             "runs_over_decision_budget": agg.budget_exhausted,
         }));
-        extra.insert("runs_per_hour".into(), json!(((agg.runs as f64) / wall.max(1e-9) * 3600.0) as u64));
-        extra.insert("seeds".into(), json!(format!("derive({}, 0..{}) x 4 runs each", seed, jobs_done)));
+        extra.insert("volume_slice".into(), json!({
+            "what": "3..6 threads, each searching the run's text of 225k..850k characters with a VM pattern that keeps 1-2 pending alternatives per character (450k..850k alone, always inside the default limits), hand-offs every 200..4000 yield points so that all threads are near their peak together; oracle as everywhere: the same call alone",
+            "runs": hagg.runs,
+            "operations": hagg.ops,
+            "scheduler_decisions": hagg.decisions,
+            "thread_handoffs": hagg.handoffs,
+            "vm_instructions_of_the_solo_passes": hagg.insns,
+            "smallest_and_largest_peak_of_a_search_alone": [if hagg.runs > 0 { hagg.min_solo_peak } else { 0 }, hagg.max_solo_peak],
+            "largest_sum_of_the_threads_solo_peaks_in_one_run": hagg.max_sum_of_solo_peaks,
+            "runs_whose_threads_together_need_more_than_1000000_alternatives": hagg.runs_whose_solo_peaks_sum_over_1m,
+            "scenarios_skipped": hagg.skipped,
+            "wall_s": heavy_wall,
+        }));
+        extra.insert("runs_per_hour".into(), json!((((agg.runs + hagg.runs) as f64) / wall.max(1e-9) * 3600.0) as u64));
+        extra.insert("seeds".into(), json!(format!("derive({}, 0..{}) x 4 runs each; volume slice derive({} ^ 'HEAVY', 0..{})", seed, jobs_done, seed, n_heavy)));
         extra.insert("real_vs_stub".into(), json!({
             "real": ["fancy_regex (whole public search API)", "regex-automata incl. its cache pool", "real OS threads, real thread-locals"],
             "stubbed": ["the OS scheduler: replaced by the seeded baton scheduler (one thread runs at a time, hand-offs only at hook yield points)", "limits of chosen searches overridden through the H2 hook"],
@@ -1202,7 +1451,7 @@ pub fn run(opts: &Opts) -> i32 {
             tier: opts.tier,
             seed,
             level: "exploration",
-            evaluations: agg.runs,
+            evaluations: agg.runs + hagg.runs,
             distinct_nontrivial: hashes.len() as u64,
             rule: "run = scenario (1-2 regexes from a corpus half delegated / half VM or the seeded grammar, 2..16 threads, 2..8 API operations each, shared / cloned / mixed) x one seeded schedule (uniform 1/q, PCT-like with 1..3 preemption points, or operation-boundary policy); non-trivial = at least one hand-off happened; distinct by hash of the hand-off list".into(),
             samples,
@@ -1218,8 +1467,8 @@ pub fn run(opts: &Opts) -> i32 {
         .write();
     }
     println!(
-        "C18 {}: {} simulated runs, {} ops, {} decisions, {} hand-offs, {} distinct interleavings, {:.1}s",
-        opts.tier.name(), agg.runs, agg.ops, agg.decisions, agg.handoffs, hashes.len(), wall
+        "C18 {}: {} simulated runs, {} ops, {} decisions, {} hand-offs, {} distinct interleavings; volume slice {} runs, {} decisions, {} of them with > 1M alternatives pending across threads; {:.1}s",
+        opts.tier.name(), agg.runs, agg.ops, agg.decisions, agg.handoffs, hashes.len(), hagg.runs, hagg.decisions, hagg.runs_whose_solo_peaks_sum_over_1m, wall
     );
     code
 }
